@@ -638,6 +638,9 @@ func TestSocketBackends(t *testing.T) {
 			cb := make(chan []error, 4)
 			ret := make(chan interface{}, 1)
 			series := rapid.SampledFrom([]int{0, 1, 3, 400}).Draw(t, "series")
+			if variant == "statsdaemon/udp" && rapid.IntRange(0, 7).Draw(t, "huge-flush") == 0 {
+				series = 120000 // more datagrams than any internal queue of the backend holds (1000)
+			}
 			go func() {
 				defer func() { ret <- recover() }()
 				kit.Backend.SendMetricsAsync(ctx, testMap(series), func(errs []error) {
